@@ -364,8 +364,9 @@ fn tq_builder_finalize_contract() {
 
 // ------------------------------------------------------------------ ownership conservation (C04), unit K-LEAK
 
+// tier: thorough (dropping whole composite caches with tracked payloads is expensive for CBMC)
 #[kani::proof]
-#[kani::unwind(34)]
+#[kani::unwind(14)]
 fn tq_put_leakcheck() {
     use crate::verif_hooks::gen::*;
     let size: usize = kani::any();
@@ -380,7 +381,7 @@ fn tq_put_leakcheck() {
     let mut c = TwoQueueCache::verif_from_parts(size, quota, build_tracked(&recent, PoisonHasher), build_tracked(&frequent, PoisonHasher), build_tracked(&ghost, PoisonHasher));
     let k: u8 = kani::any();
     let v: u8 = kani::any();
-    kani::assume(k < 16 && v >= 16 && v < 32);
+    kani::assume(k < 6 && v >= 6 && v < 12);
     let before = ids_of(&[&recent, &frequent, &ghost]);
     kani::assume(before & (1 << v) == 0);
     let hit = recent.has(k) || frequent.has(k) || ghost.has(k);
